@@ -371,8 +371,8 @@ def sl_block(slmode, rho, rng):
 
 @subcheck("C12", "normlist", st_normlist, quick=2500, thorough=50000,
           rule="FeatNormalizerList over all four semilocal modes with None entries for the semilocal rows (as every "
-               "settings class builds them) and 1-5 drawn normalisers/None for the nonlocal rows, nspin 1/2, rho above "
-               "the 1e-10 floor; oracles: reverse pass vs finite difference of get_normalized_feature_vector per raw "
+               "settings class builds them) and 1-5 drawn normalisers/None for the nonlocal rows, nspin 1/2, rho 1e-6..50 and, in "
+               "a third of the cases, some samples below the 1e-10 clamp; oracles: reverse pass vs finite difference of get_normalized_feature_vector per raw "
                "row; forward pass vs finite difference along a drawn tangent; transpose identity 1e-12; "
                "non-trivial = at least one density- or inhomogeneity-dependent normaliser",
           tolerances={"fd_rtol": 1e-6, "transpose_rtol": 1e-12})
@@ -385,6 +385,13 @@ def normlist(case, ctx):
     rng = rng_from(case["seed"])
     X = np.empty((nspin, nf, ns))
     X[:, 0] = np.exp(rng.uniform(np.log(1e-6), np.log(50), (nspin, ns)))
+    if case["seed"] % 3 == 0:
+        # densities below the list's clamp (cutoff = 1e-10; grid points far from the molecule): the value routine uses
+        # max(rho, cutoff), so nothing depends on rho there; the steps of the FD oracle (1e-3 rho) stay below the clamp
+        low = rng.integers(0, 2, (nspin, ns)).astype(bool)
+        X[:, 0][low] = rng.choice([1e-14, 3e-11, 9e-11], int(low.sum()))
+        if low.any():
+            ctx.event("has_density_below_clamp")
     for k, row in enumerate(sl_block(case["slmode"], X[:, 0], rng)):
         X[:, 1 + k] = row
     nsl = 3 if case["slmode"] in ("npa", "nst") else 2
